@@ -1,6 +1,9 @@
 package main
 
 import (
+	"crypto/sha256"
+	"encoding/hex"
+	"encoding/json"
 	"flag"
 	"fmt"
 	"image"
@@ -137,6 +140,9 @@ type helperEv struct {
 	Geom   geomJ   `json:"geom"`
 }
 
+// dyadicOnly restricts helper arguments to values whose results are 30-bit floats
+var dyadicOnly bool
+
 func randStops(r *rand.Rand, n int) ([]generate.GradientStop, []stopJ) {
 	var ss []generate.GradientStop
 	var js []stopJ
@@ -154,7 +160,7 @@ func randStops(r *rand.Rand, n int) ([]generate.GradientStop, []stopJ) {
 		}
 		conv := color.RGBAModel.Convert(c).(color.RGBA) // the standard conversion; the spec is told this value
 		off := float32(i+1) / float32(n+1)
-		if r.Intn(3) == 0 {
+		if r.Intn(3) == 0 || dyadicOnly {
 			off = float32(i) / 64
 		}
 		ss = append(ss, generate.GradientStop{Offset: off, Color: c})
@@ -180,19 +186,32 @@ func randHelper(r *rand.Rand) *helperSpec {
 		h.geom.Kind = "none"
 	case 1:
 		h.name, h.shape = "SetLinearGradient", 0
-		d := [][2]float32{{4, 0}, {0, 8}, {4, 4}, {-8, 8}, {16, 0}, {2, -2}, {3, 4}, {5, -12}, {1, 7}, {0.5, 0}}[r.Intn(10)]
+		nd := 10
+		if dyadicOnly {
+			nd = 6
+		}
+		d := [][2]float32{{4, 0}, {0, 8}, {4, 4}, {-8, 8}, {16, 0}, {2, -2}, {3, 4}, {5, -12}, {1, 7}, {0.5, 0}}[r.Intn(nd)]
 		x1, y1 := float32(r.Intn(33)-16), float32(r.Intn(33)-16)
 		h.args = [6]float32{x1, y1, x1 + d[0], y1 + d[1]}
 		h.geom = geomJ{Kind: "linear", P1: [2]int{k(x1), k(y1)}, P2: [2]int{k(x1 + d[0]), k(y1 + d[1])}}
 	case 2:
 		h.name, h.shape = "SetCircularGradient", 1
-		d := [][2]float32{{4, 0}, {0, 8}, {3, 4}, {-6, 8}, {16, 0}, {5, 12}, {0, -2}, {1, 1}}[r.Intn(8)]
+		dc := [][2]float32{{4, 0}, {0, 8}, {16, 0}, {0, -2}, {3, 4}, {-6, 8}, {5, 12}, {1, 1}}
+		ndc := 8
+		if dyadicOnly {
+			ndc = 4
+		}
+		d := dc[r.Intn(ndc)]
 		cx, cy := float32(r.Intn(33)-16), float32(r.Intn(33)-16)
 		h.args = [6]float32{cx, cy, d[0], d[1]}
 		h.geom = geomJ{Kind: "circular", C: [2]int{k(cx), k(cy)}, Rv: [2]int{k(d[0]), k(d[1])}}
 	default:
 		h.name, h.shape = "SetEllipticalGradient", 1
-		d := [][4]float32{{4, 0, 0, 2}, {8, 0, 0, 8}, {4, 4, -2, 2}, {0, 4, -16, 0}, {3, 1, -1, 5}, {6, 2, 1, 4}}[r.Intn(6)]
+		ne := 6
+		if dyadicOnly {
+			ne = 4
+		}
+		d := [][4]float32{{4, 0, 0, 2}, {8, 0, 0, 8}, {4, 4, -2, 2}, {0, 4, -16, 0}, {3, 1, -1, 5}, {6, 2, 1, 4}}[r.Intn(ne)]
 		cx, cy := float32(r.Intn(33)-16), float32(r.Intn(33)-16)
 		h.args = [6]float32{cx, cy, d[0], d[1], d[2], d[3]}
 		h.geom = geomJ{Kind: "elliptical", C: [2]int{k(cx), k(cy)}, Rv: [2]int{k(d[0]), k(d[1])}, Sv: [2]int{k(d[2]), k(d[3])}}
@@ -221,9 +240,9 @@ func genSteps(r *rand.Rand, n int) []gstep {
 	for i := 0; i < n; i++ {
 		switch r.Intn(12) {
 		case 0:
-			st = append(st, sel("SetCSel", []int{0, 9, 10, 11, 12, 62, 63, r.Intn(64), r.Intn(64)}[r.Intn(9)]))
+			st = append(st, sel("SetCSel", []int{0, 9, 10, 11, 12, 62, 63, r.Intn(64), r.Intn(64), 74, 64 + r.Intn(192)}[r.Intn(11)]))
 		case 1:
-			st = append(st, sel("SetNSel", []int{0, 9, 10, 11, 63, r.Intn(64), r.Intn(64)}[r.Intn(7)]))
+			st = append(st, sel("SetNSel", []int{0, 9, 10, 11, 63, r.Intn(64), r.Intn(64), 75, 64 + r.Intn(192)}[r.Intn(9)]))
 		case 2, 3:
 			c := mkCall("SetCReg")
 			c.C = randColor(r, &progOpts{})
@@ -329,6 +348,7 @@ func driveGen(args []string) error {
 	stats := map[string]int{}
 	rect := image.Rect(0, 0, 64, 64)
 	for i := 0; i < *n; i++ {
+		dyadicOnly = i%2 == 0
 		st := genSteps(rng, *steps)
 		if i%3 == 0 {
 			// directed: walk CSEL (and NSEL) across 63 -> 0 by incrementing writes so that it lands in or next to
@@ -370,12 +390,20 @@ func driveGen(args []string) error {
 				}
 				return d
 			}
+			p1log := ""
+			exact30 := true
 			// P1: Generator -> [logger ->] Renderer
 			{
 				w := rend.Next()
 				t := newTracedRenderer(w, id+"/P1", rect)
 				nc := 0
-				fd := &fwdDest{dest: t.rd, onCall: func(c Call) { nc++; t.do(c) },
+				fd := &fwdDest{dest: t.rd, onCall: func(c Call) {
+					nc++
+					if c.Op == "SetNReg" && c.F[0][1]&3 != 0 {
+						exact30 = false // this number does not survive the format's 30-bit floats unchanged
+					}
+					t.do(c)
+				},
 					onRead: func(which string, v uint8) {
 						w.Emit(map[string]interface{}{"ev": "read", "which": which, "val": int(v)})
 					}}
@@ -384,6 +412,7 @@ func driveGen(args []string) error {
 				os.Stdout = stdout
 				stats["P1"]++
 				stats["calls"] += nc
+				p1log = rasterDigest(t.z.Calls)
 			}
 			// P2: Generator -> [logger ->] Encoder -> bytes -> Decoder -> Renderer
 			{
@@ -425,6 +454,15 @@ func driveGen(args []string) error {
 				if err := decode.Decode(rec, b); err != nil {
 					stats["P2.decerr"]++
 				}
+				// both pipelines were fed the same steps with on-grid coordinates: the same rasteriser activity and paints
+				// (only when every number register value is a 30-bit float, so that the format's quantisation is the identity)
+				if exact30 {
+					wd.Emit(map[string]interface{}{"ev": "same", "what": "rasteriser log of Generator->Renderer vs Generator->Encoder->Decoder->Renderer",
+						"a": p1log, "b": rasterDigest(t.z.Calls)})
+					stats["P1=P2 compared"]++
+				} else {
+					stats["P1=P2 not compared (numbers beyond 30-bit floats)"]++
+				}
 			}
 		}
 	}
@@ -436,3 +474,10 @@ func driveGen(args []string) error {
 }
 
 var _ = strings.Join
+
+// rasterDigest is a digest of a recorded rasteriser log (kinds, float bits, integers, projected paints).
+func rasterDigest(cs []RCall) string {
+	b, _ := json.Marshal(cs)
+	h := sha256.Sum256(b)
+	return hex.EncodeToString(h[:10])
+}
